@@ -40,7 +40,13 @@ func serve() {
 			return
 		}
 		line = strings.TrimRight(line, "\r\n")
-		out.WriteString(handle(line))
+		// one request = one deadline: an entry point, SQL(), Pos(), End() or Walk that loops or panics outside the per-channel
+		// guards answers ABNORMAL (a disagreement with the model) instead of hanging or killing the server
+		var res string
+		if p := safely(func() { res = handle(line) }); p != nil {
+			res = fmt.Sprint("ABNORMAL ", p)
+		}
+		out.WriteString(res)
 		out.WriteByte('\n')
 		if err != nil {
 			return
